@@ -13,3 +13,39 @@ package http
 //@ func (Engine).applyAuthMiddleware$1
 //@   prop C04
 //@   ensures [auth-not-skipped-under-path] matchesPath(echo.GetPath(c.Request()), path) ==> result == false
+
+//@ func (*MultiEcho).getBindFromPath
+//@   prop C04 C19
+//@   pure
+//@   safety
+
+// Route registration: the echo instance that receives a route is the one bound to the route's
+// first path segment, else the one bound to "/" (the public interface).
+//@ func NewMultiEcho$1
+//@   prop C04
+//@   call (EchoServer).Add #1 requires [route-goes-to-its-bind] arg(2) == path
+//@        && ( instance.binds[instance.getBindFromPath(path)] != ""
+//@             ? arg(0) == instance.interfaces[instance.binds[instance.getBindFromPath(path)]]
+//@             : arg(0) == instance.interfaces[instance.binds[RootPath]] )
+
+//@ func (*MultiEcho).Bind
+//@   prop C04
+//@   ensures [empty-address-refused] len(address) == 0 ==> !isNilIface(result)
+//@   ensures [duplicate-bind-refused] old(c.getBindFromPath(path) in c.binds) ==> !isNilIface(result)
+//@   call mapupdate #1 requires arg(0) == c.binds && arg(1) == c.getBindFromPath(old(path)) && arg(2) == address
+
+//@ func (*MultiEcho).validateBindPath
+//@   prop C04
+//@   modifies nothing
+
+// The four internal prefixes are bound to the internal address, "/" to the public address, before
+// the authentication middleware is applied and before any route can be registered.
+//@ func (*Engine).Configure
+//@   prop C04
+//@   loop 1 unroll 4
+//@   call (*MultiEcho).Bind #1 requires [root-is-public] arg(1) == RootPath && arg(2) == h.config.Public.Address
+//@   call (*MultiEcho).Bind #2 requires [internal-prefixes] arg(2) == h.config.Internal.Address
+//@        && ($iter1 == 0 ==> arg(1) == "/internal") && ($iter1 == 1 ==> arg(1) == "/status")
+//@        && ($iter1 == 2 ==> arg(1) == "/health") && ($iter1 == 3 ==> arg(1) == "/metrics")
+//@   call (Engine).applyAuthMiddleware #1 requires [all-four-bound-before-auth] $iter1 == 4 && arg(2) == "/internal" && arg(3) == h.config.Internal.Auth
+//@   ensures [success-only-through-auth-setup] isNilIface(result) ==> did(call (Engine).applyAuthMiddleware #1) && isNilIface(ret(call (Engine).applyAuthMiddleware #1))
